@@ -100,7 +100,12 @@ func genMethods(t *rapid.T, pool []cand, label string) []progen.Meth {
 		var s progen.Sig
 		np := rapid.IntRange(0, 3).Draw(t, label+"np")
 		for j := 0; j < np; j++ {
-			s.Params = append(s.Params, progen.Var{Name: fmt.Sprintf("p%d", j), T: genType(t, pool, label+"pt")})
+			name := fmt.Sprintf("p%d", j)
+			if rapid.IntRange(0, 3).Draw(t, label+"qualname") == 0 {
+				// a parameter named like a package that a replacement may bring in
+				name = []string{"alpha", "http", "time", "svc"}[j%4]
+			}
+			s.Params = append(s.Params, progen.Var{Name: name, T: genType(t, pool, label+"pt")})
 		}
 		if np > 0 && rapid.IntRange(0, 4).Draw(t, label+"var") == 0 {
 			s.Variadic = true
